@@ -15,7 +15,9 @@ elab "property_theorem " pid:ident thm:ident : command => do
   let short := n.components.getLast!
   let newName := (`OSq.Props ++ pid.getId) ++ short
   let lvls := ci.levelParams
-  let decl := Declaration.thmDecl {
-    name := newName, levelParams := lvls, type := ci.type,
-    value := mkConst n (lvls.map mkLevelParam) }
+  let val := mkConst n (lvls.map mkLevelParam)
+  let decl := match ci with
+    | .thmInfo _ => Declaration.thmDecl { name := newName, levelParams := lvls, type := ci.type, value := val }
+    | _ => Declaration.defnDecl { name := newName, levelParams := lvls, type := ci.type, value := val,
+                                  hints := .abbrev, safety := .safe }      -- a definition the theorems are about
   liftCoreM <| addDecl decl
